@@ -4,7 +4,10 @@
    RI / MA / DB and Zin RI / MA / PRC / PRL / SRC / SRL, i.e. every entry the loader can load), any port count, any
    number of frequencies, z0 vector or per-frequency z0: the loader accepts the file and returns the entry its own
    selection picks with every frequency, z0 and cell as the written texts read back.  Number-text layer: Section
-   hypotheses.  Lists with IL / RL / VSWR columns are not covered (the field counts differ per entry). *)
+   hypotheses.  The list may also hold IL / RL / VSWR columns (the loader skips them: efields_len, il_length give the field
+   offsets) as long as one entry is loadable; a list of ONLY such columns is written but rejected
+   (npd_scalar_only_rejected_lemma: known finding DF3).  npd_premises_lemma derives the premises from cksave + wf_obj + the
+   invariants of a vnadata_t. *)
 Require Import List Arith NArith ZArith QArith Qcanon Bool Lia. Import ListNotations.
 Require Import LV.Files.TsTok LV.Files.NpdScan LV.Files.NpdLoad LV.Files.SaveModel LV.Files.SaveProofs LV.Files.SaveEmit.
 Local Opaque parse_double parse_int.
@@ -351,13 +354,39 @@ Section NPD.
           (Some (m_fprec o)) (Some (m_dprec o)).
   (* what the saver's acceptance checks and the invariants of a vnadata_t give for every entry of the list *)
   Definition entry_good (o : mobj D) (e : entry) : Prop :=
-    pairform e = true /\ (two_port_type (e_par e) = true -> m_ports o = 2) /\ (e_par e <> PZIN -> m_rows o = m_ports o) /\
+    wf_entry e = true /\ (two_port_type (e_par e) = true -> m_ports o = 2) /\ (e_par e <> PZIN -> m_rows o = m_ports o) /\
     forall i, i < length (m_freqs o) -> length (nth i (convert_obj E o (e_par e)) []) = ecells (m_ports o) e.
   Definition fz0_sized (o : mobj D) : Prop :=
     forall zs, m_fz0 o = Some zs -> forall i, i < length (m_freqs o) -> length (nth i zs []) = m_ports o.
 
   Lemma pairform_facts : forall e, pairform e = true -> wf_entry e = true /\ e_par e <> PUNDEF /\ (0 < quality e).
   Proof. intros [p f] H. destruct p, f; try discriminate H; repeat split; try discriminate; cbn; lia. Qed.
+
+  Lemma wf_entry_facts : forall e, wf_entry e = true -> e_par e <> PUNDEF /\ (0 < quality e -> pairform e = true).
+  Proof. intros [p f] H. destruct p, f; try discriminate H; split; try discriminate; cbn; intro Q; try reflexivity; lia. Qed.
+
+  Lemma skip_diag_other : forall A (g : nat -> A) r l, ~ In r l ->
+    length (flat_map (fun c => if Nat.eqb r c then [] else [g c]) l) = length l.
+  Proof.
+    intros A g r l. induction l as [| c l IH]; intro H; [reflexivity |]. cbn [flat_map length].
+    destruct (Nat.eqb_spec r c) as [-> | Hn]; [exfalso; apply H; left; reflexivity |].
+    cbn [app length]. rewrite IH; [reflexivity |]. intro X. apply H. right. exact X.
+  Qed.
+  Lemma skip_diag_row : forall A (g : nat -> A) r n, r < n ->
+    length (flat_map (fun c => if Nat.eqb r c then [] else [g c]) (seq 0 n)) = n - 1.
+  Proof.
+    intros A g r n H. replace n with (r + S (n - S r)) at 1 by lia. rewrite seq_app, flat_map_app, app_length. cbn [seq flat_map].
+    rewrite Nat.eqb_refl. cbn [app]. rewrite !skip_diag_other; [rewrite !seq_length; lia | |]; rewrite in_seq; lia.
+  Qed.
+  Lemma il_length : forall A (g : nat -> nat -> A) n,
+    length (flat_map (fun r => flat_map (fun c => if Nat.eqb r c then [] else [g r c]) (seq 0 n)) (seq 0 n)) = n * (n - 1).
+  Proof.
+    intros A g n. assert (G : forall l, (forall r, In r l -> r < n) ->
+      length (flat_map (fun r => flat_map (fun c => if Nat.eqb r c then [] else [g r c]) (seq 0 n)) l) = length l * (n - 1)).
+    { induction l as [| r l IH]; intro H; [reflexivity |]. cbn [flat_map length]. rewrite app_length, IH by (intros; apply H; right; assumption).
+      rewrite (skip_diag_row A (g r) r n) by (apply H; left; reflexivity). lia. }
+    rewrite G; [rewrite seq_length; reflexivity |]. intros r Hr. apply in_seq in Hr. lia.
+  Qed.
 
   Lemma pair_fields_Z : forall ports e, pairform e = true ->
     entry_fields (Z.of_nat ports) e = Z.of_nat (2 * ecells ports e) /\
@@ -367,14 +396,27 @@ Section NPD.
   Definition efields (o : mobj D) (i : nat) (fq : D) (e : entry) : list (list N) :=
     npd_entry_fields E o (m_rows o) (m_ports o) e fq (nth i (convert_obj E o (e_par e)) []).
 
-  Lemma efields_flat : forall o i fq e, entry_good o e -> i < length (m_freqs o) ->
+  Lemma efields_flat : forall o i fq e, entry_good o e -> pairform e = true -> i < length (m_freqs o) ->
     efields o i fq e = flat_map (entry_texts o e fq) (nth i (convert_obj E o (e_par e)) []) /\
     length (efields o i fq e) = 2 * ecells (m_ports o) e.
   Proof.
-    intros o i fq e (Hp & _ & Hr & Hl) Hi. unfold efields. rewrite entry_fields_flat by (auto).
+    intros o i fq e (_ & _ & Hr & Hl) Hp Hi. unfold efields. rewrite entry_fields_flat by (auto).
     split; [reflexivity |]. rewrite (flat_map_length_const' _ _ _ 2).
     - rewrite Hl by exact Hi. lia.
     - intro v. destruct (entry_texts_pair o e fq v Hp) as (a & b & T & _). rewrite T. reflexivity.
+  Qed.
+
+  (* the fields the saver writes for an entry are as many as the loader counts for it: every entry parse_format can produce *)
+  Lemma efields_len : forall o i fq e, entry_good o e -> i < length (m_freqs o) ->
+    Z.of_nat (length (efields o i fq e)) = entry_fields (Z.of_nat (m_ports o)) e.
+  Proof.
+    intros o i fq e He Hi. destruct (pairform e) eqn:Hp.
+    - destruct (efields_flat o i fq e He Hp Hi) as [_ L]. rewrite L. destruct (pair_fields_Z (m_ports o) e Hp) as [A _]. rewrite A. reflexivity.
+    - destruct He as (Hw & _ & Hr & _). unfold efields, npd_entry_fields, entry_fields. destruct e as [p f]. cbn [e_par e_form] in *.
+      destruct p, f; try discriminate Hw; try discriminate Hp; rewrite ?(Hr ltac:(discriminate)).
+      + rewrite il_length. destruct (m_ports o) as [| n]; [reflexivity |]. rewrite Nat2Z.inj_mul. f_equal. lia.
+      + rewrite map_length, seq_length. reflexivity.
+      + rewrite map_length, seq_length. reflexivity.
   Qed.
 
   Lemma sum_efields : forall o i fq l, Forall (entry_good o) l -> i < length (m_freqs o) ->
@@ -382,8 +424,7 @@ Section NPD.
   Proof.
     intros o i fq l H Hi. induction H as [| e r He Hr IH]; [reflexivity |].
     cbn [flat_map sum_fields fold_right]. fold (sum_fields (Z.of_nat (m_ports o)) r). rewrite app_length, Nat2Z.inj_add, IH.
-    destruct (efields_flat o i fq e He Hi) as [_ L]. rewrite L. destruct He as (Hp & _).
-    destruct (pair_fields_Z (m_ports o) e Hp) as [A _]. rewrite A. reflexivity.
+    rewrite (efields_len o i fq e He Hi). reflexivity.
   Qed.
 
   Definition zline (o : mobj D) (i : nat) : list (list N) :=
@@ -401,13 +442,13 @@ Section NPD.
     rewrite !ptext_field. unfold zvals in IH. rewrite IH. reflexivity.
   Qed.
 
-  Lemma line_step : forall o l l1 e l2 d i fq, l = l1 ++ e :: l2 -> Forall (entry_good o) l -> fz0_sized o ->
+  Lemma line_step : forall o l l1 e l2 d i fq, l = l1 ++ e :: l2 -> Forall (entry_good o) l -> pairform e = true -> fz0_sized o ->
     i < length (m_freqs o) -> (0 < nd_left d)%Z ->
     nstep (NData (npd_ctx o l l1 e) d) (npd_line E o l i fq) =
     NData (npd_ctx o l l1 e) (mknd (nd_left d - 1) (rd (m_fprec o) fq :: nd_freqs d) (zvals_at o i :: nd_fz0 d)
                                     (map (entry_vals o e fq) (nth i (convert_obj E o (e_par e)) []) :: nd_cells d)).
   Proof.
-    intros o l l1 e l2 d i fq Hl Hgood Hfz Hi Hleft. unfold nstep, npd_line.
+    intros o l l1 e l2 d i fq Hl Hgood Hpe Hfz Hi Hleft. unfold nstep, npd_line.
     rewrite record_of_data by apply ptext_nohash. unfold data_step.
     replace (nd_left d <=? 0)%Z with false by (symmetry; apply Z.leb_gt; exact Hleft).
     fold (zline o i). change (fun e0 => npd_entry_fields E o (m_rows o) (m_ports o) e0 fq (nth i (convert_obj E o (e_par e0)) []))
@@ -416,7 +457,7 @@ Section NPD.
     { subst l. apply Forall_app in Hgood as [A B]. inversion B; subst. split; [exact A | split; assumption]. }
     destruct Hg1 as (G1 & Ge & G2).
     rewrite Hl at 2. rewrite flat_map_app. cbn [flat_map].
-    destruct (efields_flat o i fq e Ge Hi) as [Fe Le].
+    destruct (efields_flat o i fq e Ge Hpe Hi) as [Fe Le].
     rewrite (data_line_ok _ d _ (rd (m_fprec o) fq) (zline o i) (zvals_at o i) _ (efields o i fq e)
                (map (entry_vals o e fq) (nth i (convert_obj E o (e_par e)) []))); [reflexivity | apply ptext_field | | | |].
     - cbn [npd_ctx x_fz0 x_ports]. unfold per_f, zline, zvals_at. destruct (m_fz0 o) as [zs |] eqn:Ez; [| split; reflexivity].
@@ -426,8 +467,8 @@ Section NPD.
       { unfold zline, pbase, per_f. destruct (m_fz0 o) as [zs |] eqn:Ez; [| reflexivity].
         rewrite (flat_map_length_const' _ _ _ 2) by (intro; reflexivity). rewrite firstn_length, (Hfz zs Ez i Hi). lia. }
       lia.
-    - intro rest. cbn [npd_ctx x_cells]. rewrite Nat2Z.id. destruct Ge as (Hp & _ & _ & Hlen). rewrite <- (Hlen i Hi), Fe.
-      apply take_pairs_flat. exact Hp.
+    - intro rest. cbn [npd_ctx x_cells]. rewrite Nat2Z.id. destruct Ge as (_ & _ & _ & Hlen). rewrite <- (Hlen i Hi), Fe.
+      apply take_pairs_flat. exact Hpe.
     - cbn [npd_ctx x_nfields]. rewrite <- (sum_efields o i fq l Hgood Hi). rewrite Hl.
       rewrite flat_map_app. cbn [flat_map length]. rewrite !app_length.
       assert (Z.of_nat (length (zline o i)) = (pbase o - 1)%Z).
@@ -439,16 +480,16 @@ Section NPD.
   Definition cells_at (o : mobj D) (e : entry) (i : nat) (fq : D) : list (xnum * xnum) :=
     map (entry_vals o e fq) (nth i (convert_obj E o (e_par e)) []).
 
-  Lemma lines_run : forall o l l1 e l2, l = l1 ++ e :: l2 -> Forall (entry_good o) l -> fz0_sized o ->
+  Lemma lines_run : forall o l l1 e l2, l = l1 ++ e :: l2 -> Forall (entry_good o) l -> pairform e = true -> fz0_sized o ->
     forall fs i d, i + length fs = length (m_freqs o) -> nd_left d = Z.of_nat (length fs) ->
     fold_left nstep (map_i (npd_line E o l) i fs) (NData (npd_ctx o l l1 e) d) =
     NData (npd_ctx o l l1 e)
           (mknd 0 (rev (map (rd (m_fprec o)) fs) ++ nd_freqs d) (rev (map_i (fun k _ => zvals_at o k) i fs) ++ nd_fz0 d)
                 (rev (map_i (cells_at o e) i fs) ++ nd_cells d)).
   Proof.
-    intros o l l1 e l2 Hl Hgood Hfz fs. induction fs as [| fq fs IH]; intros i d Hi Hleft.
+    intros o l l1 e l2 Hl Hgood Hpe Hfz fs. induction fs as [| fq fs IH]; intros i d Hi Hleft.
     - cbn. destruct d. cbn in *. subst. reflexivity.
-    - cbn [map_i fold_left length] in *. rewrite (line_step o l l1 e l2 d i fq Hl Hgood Hfz) by lia.
+    - cbn [map_i fold_left length] in *. rewrite (line_step o l l1 e l2 d i fq Hl Hgood Hpe Hfz) by lia.
       rewrite IH by (cbn [nd_left]; lia). cbn [nd_freqs nd_fz0 nd_cells map rev]. rewrite <- !app_assoc. reflexivity.
   Qed.
 
@@ -459,28 +500,30 @@ Section NPD.
            (if per_f o then Some (map_i (fun k _ => zvals_at o k) 0 (m_freqs o)) else None)
            (map_i (cells_at o e) 0 (m_freqs o)) (Some (m_fprec o)) (Some (m_dprec o)).
 
-  Theorem npd_load_save_lemma : forall o l, npd_wf o -> l <> [] -> Forall (entry_good o) l -> fz0_sized o -> m_freqs o <> [] ->
+  Theorem npd_load_save_lemma : forall o l, npd_wf o -> Exists (fun e => pairform e = true) l -> Forall (entry_good o) l -> fz0_sized o -> m_freqs o <> [] ->
     (pbase o + sum_fields (Z.of_nat (m_ports o)) l <= 2147483647)%Z ->
     exists l1 e l2, l = l1 ++ e :: l2 /\
       fst (sel (Z.of_nat (m_ports o)) l (pbase o) None 0) = Some (e, (pbase o + sum_fields (Z.of_nat (m_ports o)) l1)%Z) /\
       nfinish (fold_left nstep (npd_header E o l ++ map_i (npd_line E o l) 0 (m_freqs o)) (NHeader nh0)) = NOk (npd_loaded o e).
   Proof.
-    intros o l Hwfo Hne Hgood Hfz Hfne Hfit. pose proof Hwfo as (Hp1 & Hp & Hnf & Hfp & Hdp & Hz).
+    intros o l Hwfo Hex Hgood Hfz Hfne Hfit. pose proof Hwfo as (Hp1 & Hp & Hnf & Hfp & Hdp & Hz).
+    assert (Hne : l <> []) by (intro X; subst l; inversion Hex).
     assert (Hwfe : Forall (fun e => wf_entry e = true) l).
-    { eapply Forall_impl; [| exact Hgood]. intros e (Hpf & _). apply (pairform_facts e Hpf). }
+    { eapply Forall_impl; [| exact Hgood]. intros e (Hpf & _). exact Hpf. }
     assert (Hok : Forall (entry_ok (Z.of_nat (m_ports o))) l).
-    { eapply Forall_impl; [| exact Hgood]. intros e (Hpf & H2 & _). split; [apply (pairform_facts e Hpf) |].
+    { eapply Forall_impl; [| exact Hgood]. intros e (Hpf & H2 & _). split; [apply (wf_entry_facts e Hpf) |].
       intro X. rewrite (H2 X). reflexivity. }
     (* the entry the loader picks *)
-    destruct (sel_spec (Z.of_nat (m_ports o)) l (pbase o) None 0) as [U | (l1 & e & l2 & Hl & Hs & _)].
-    { exfalso. destruct l as [| e0 r]; [congruence |]. inversion Hgood as [| ? ? (Hpf & _) _]; subst.
-      destruct (sel_max (Z.of_nat (m_ports o)) (e0 :: r) (pbase o) None 0) as [_ M]. specialize (M e0 (or_introl eq_refl)).
+    destruct (sel_spec (Z.of_nat (m_ports o)) l (pbase o) None 0) as [U | (l1 & e & l2 & Hl & Hs & Hq)].
+    { exfalso. apply Exists_exists in Hex as (e0 & Hin & Hpf).
+      destruct (sel_max (Z.of_nat (m_ports o)) l (pbase o) None 0) as [_ M]. specialize (M e0 Hin).
       rewrite U in M. cbn [snd] in M. destruct (pairform_facts e0 Hpf) as (_ & _ & Q). lia. }
     exists l1, e, l2. split; [exact Hl |]. split; [rewrite Hs; reflexivity |].
     rewrite fold_left_app, header_run by assumption.
     (* post_header *)
     assert (Hpb : (1 <= pbase o)%Z) by (unfold pbase; destruct (per_f o); lia).
     assert (Hge : entry_good o e) by (subst l; apply Forall_app in Hgood as [_ B]; inversion B; assumption).
+    assert (Hpe : pairform e = true) by (destruct Hge as (Hw & _); apply (wf_entry_facts e Hw); lia).
     assert (Hph : post_header (npd_hdr o l) = inr (npd_ctx o l l1 e)).
     { unfold post_header, legacy_ports, npd_hdr. cbn [n_ports n_rows n_columns n_frequencies n_params n_fz0 n_z0 n_fprec n_dprec].
       replace (Z.of_nat (m_ports o) <? 0)%Z with false by (symmetry; apply Z.ltb_ge; lia). cbn [andb].
@@ -489,7 +532,7 @@ Section NPD.
         by (symmetry; apply andb_false_iff; right; apply Z.ltb_ge; unfold int_max; change ((2147483647 - 1) / 2)%Z with 1073741823%Z; lia).
       fold (pbase o). rewrite account_run; try assumption; try lia; try (unfold int_max; lia).
       rewrite Hs. cbn [fst snd pl_best pl_fields]. unfold npd_ctx, z0opt.
-      destruct Hge as (Hpf & _). destruct (pair_fields_Z (m_ports o) e Hpf) as [_ C]. rewrite C.
+      destruct (pair_fields_Z (m_ports o) e Hpe) as [_ C]. rewrite C.
       replace (Z.of_nat (m_ports o) <? 0)%Z with false by (symmetry; apply Z.ltb_ge; lia). reflexivity. }
     (* the lines *)
     destruct (m_freqs o) as [| fq fs] eqn:Efs; [congruence |]. cbn [map_i fold_left].
@@ -498,8 +541,8 @@ Section NPD.
     { unfold nstep, npd_line. rewrite record_of_data by apply ptext_nohash. rewrite Hph. reflexivity. }
     rewrite Hfirst.
     assert (Hlen : length (m_freqs o) = S (length fs)) by (rewrite Efs; reflexivity).
-    rewrite (line_step o l l1 e l2 _ 0 fq Hl Hgood Hfz) by (rewrite ?Hlen; cbn [nd_left length]; lia).
-    rewrite (lines_run o l l1 e l2 Hl Hgood Hfz fs 1) by (cbn [nd_left length]; lia).
+    rewrite (line_step o l l1 e l2 _ 0 fq Hl Hgood Hpe Hfz) by (rewrite ?Hlen; cbn [nd_left length]; lia).
+    rewrite (lines_run o l l1 e l2 Hl Hgood Hpe Hfz fs 1) by (cbn [nd_left length]; lia).
     cbn [nfinish nd_left Z.eqb]. f_equal. unfold obj_of, npd_loaded. cbn [npd_ctx x_best x_ports x_z0 x_fz0 x_nfreq x_fprec x_dprec nd_freqs nd_fz0 nd_cells].
     rewrite Efs. cbn [map map_i]. rewrite !rev_app_distr. cbn [rev app]. rewrite !rev_involutive.
     replace (0 <? Z.of_nat (length (fq :: fs)))%Z with true by (symmetry; apply Z.ltb_lt; cbn [length]; lia).
@@ -507,6 +550,119 @@ Section NPD.
     replace (Z.of_nat (m_ports o) =? 0)%Z with false by (symmetry; apply Z.eqb_neq; lia). rewrite andb_false_r.
     unfold z0opt. change (map (entry_vals o e fq) (nth 0 (convert_obj E o (e_par e)) [])) with (cells_at o e 0 fq).
     destruct (e_par e), (per_f o); reflexivity.
+  Qed.
+
+  (* ---- the boundary (known finding DF3): a list with ONLY IL / RL / VSWR columns is written but cannot be loaded ------ *)
+  Lemma sel_none : forall ports l f0, Forall (fun e => quality e = 0) l -> sel ports l f0 None 0 = (None, 0).
+  Proof.
+    intros ports l. induction l as [| e r IH]; intros f0 H; [reflexivity |]. inversion H as [| ? ? Q Hr]; subst.
+    cbn [sel]. rewrite Q. cbn [Nat.ltb Nat.leb]. apply IH. exact Hr.
+  Qed.
+  Lemma fold_nerr : forall ls c, fold_left nstep ls (NErr c) = NErr c.
+  Proof. induction ls; intros; [reflexivity |]. cbn [fold_left nstep]. apply IHls. Qed.
+
+  Theorem npd_scalar_only_rejected_lemma : forall o l, npd_wf o -> l <> [] -> Forall (entry_good o) l ->
+    Forall (fun e => quality e = 0) l -> m_freqs o <> [] ->
+    (pbase o + sum_fields (Z.of_nat (m_ports o)) l <= 2147483647)%Z ->
+    nfinish (fold_left nstep (npd_header E o l ++ map_i (npd_line E o l) 0 (m_freqs o)) (NHeader nh0)) = NError NEBADMSG.
+  Proof.
+    intros o l Hwfo Hne Hgood Hq Hfne Hfit. pose proof Hwfo as (Hp1 & Hp & Hnf & Hfp & Hdp & Hz).
+    assert (Hwfe : Forall (fun e => wf_entry e = true) l).
+    { eapply Forall_impl; [| exact Hgood]. intros e (Hpf & _). exact Hpf. }
+    assert (Hok : Forall (entry_ok (Z.of_nat (m_ports o))) l).
+    { eapply Forall_impl; [| exact Hgood]. intros e (Hpf & H2 & _). split; [apply (wf_entry_facts e Hpf) |].
+      intro X. rewrite (H2 X). reflexivity. }
+    rewrite fold_left_app, header_run by assumption.
+    assert (Hpb : (1 <= pbase o)%Z) by (unfold pbase; destruct (per_f o); lia).
+    assert (Hph : post_header (npd_hdr o l) = inl NEBADMSG).
+    { unfold post_header, legacy_ports, npd_hdr. cbn [n_ports n_rows n_columns n_frequencies n_params n_fz0 n_z0 n_fprec n_dprec].
+      replace (Z.of_nat (m_ports o) <? 0)%Z with false by (symmetry; apply Z.ltb_ge; lia). cbn [andb].
+      replace (Z.of_nat (length (m_freqs o)) <? 0)%Z with false by (symmetry; apply Z.ltb_ge; lia).
+      replace (per_f o && ((int_max - 1) / 2 <? Z.of_nat (m_ports o))%Z) with false
+        by (symmetry; apply andb_false_iff; right; apply Z.ltb_ge; unfold int_max; change ((2147483647 - 1) / 2)%Z with 1073741823%Z; lia).
+      fold (pbase o). rewrite account_run; try assumption; try lia; try (unfold int_max; lia).
+      rewrite sel_none by exact Hq. cbn [fst snd pl_best].
+      replace (Z.of_nat (m_ports o) <? 0)%Z with false by (symmetry; apply Z.ltb_ge; lia). reflexivity. }
+    destruct (m_freqs o) as [| fq fs] eqn:Efs; [congruence |]. cbn [map_i fold_left].
+    assert (Hfirst : nstep (NHeader (npd_hdr o l)) (npd_line E o l 0 fq) = NErr NEBADMSG).
+    { unfold nstep, npd_line. rewrite record_of_data by apply ptext_nohash. rewrite Hph. reflexivity. }
+    rewrite Hfirst, fold_nerr. reflexivity.
+  Qed.
+
+  (* ---- the premises from the acceptance checks and the invariants of a vnadata_t ----------------------------------- *)
+  (* vnadata_convert of a matrix object: a matrix of the same size, or one input impedance per port *)
+  Definition conv_shape : Prop :=
+    forall a b z m, is_matrix a = true -> length (v_conv E a b z m) = match b with PZIN => length z | _ => length m end.
+  Definition mobj_inv (o : mobj D) : Prop :=
+    (per_f o = false -> length (m_z0 o) = m_ports o) /\ length (m_data o) = length (m_freqs o) /\
+    Forall (fun m => length m = m_rows o * m_ports o) (m_data o) /\
+    (Z.of_nat (m_ports o) <= 46340)%Z /\ (Z.of_nat (length (m_freqs o)) <= 2147483647)%Z /\
+    (0 <= m_fprec o <= 1000)%Z /\ (0 <= m_dprec o <= 1000)%Z /\ fz0_sized o.
+
+  Lemma nth_map_i_len : forall A B (f : nat -> A -> list B) (l : list A) k i d, i < length l ->
+    nth i (map_i f k l) [] = f (k + i) (nth i l d).
+  Proof.
+    intros A B f l. induction l as [| x l IH]; intros k i d H; [simpl in H; lia |].
+    destruct i; cbn [map_i nth]; [rewrite Nat.add_0_r; reflexivity |]. replace (k + S i) with (S k + i) by lia. apply IH. simpl in H. lia.
+  Qed.
+
+  Theorem npd_premises_lemma : forall o ft0 promote fmt,
+    mobj_inv o -> conv_shape -> wf_obj (sobj_of E o ft0 promote fmt) = true -> cksave (sobj_of E o ft0 promote fmt) = true ->
+    final_filetype (sobj_of E o ft0 promote fmt) = NPD ->
+    Forall (fun e => wf_entry e = true) (resolved (sobj_of E o ft0 promote fmt)) ->
+    npd_wf o /\ Forall (entry_good o) (resolved (sobj_of E o ft0 promote fmt)) /\ fz0_sized o /\ m_freqs o <> [] /\
+    resolved (sobj_of E o ft0 promote fmt) <> [].
+  Proof.
+    intros o ft0 promote fmt (Hz & Hd & Hm & H46 & Hnf & Hfp & Hdp & Hfz) Hcs Hwfo Hck Hfin Hwfe.
+    set (s := sobj_of E o ft0 promote fmt) in *.
+    unfold cksave, cksave_gen in Hck.
+    apply andb_prop in Hck as [Hck Hconv]. apply andb_prop in Hck as [Hck _]. apply andb_prop in Hck as [Hck Hfreq].
+    apply andb_prop in Hck as [Hty Hports].
+    change (o_ports s) with (m_ports o) in *. change (o_freqs s) with (length (m_freqs o)) in *. change (o_type s) with (m_type o) in *.
+    apply Nat.leb_le in Hports.
+    assert (Hf0 : m_freqs o <> []) by (intro X; rewrite X in Hfreq; discriminate).
+    assert (Hne : resolved s <> []).
+    { unfold resolved, eff_format. destruct (o_format s); discriminate. }
+    split; [unfold npd_wf; repeat split; assumption || lia |].
+    split; [| repeat split; assumption].
+    unfold resolved in *. unfold convertible_check in Hconv. rewrite forallb_forall in Hconv. rewrite Forall_forall in Hwfe.
+    apply Forall_forall. intros e' Hin'. specialize (Hwfe e' Hin'). apply in_map_iff in Hin' as (e & <- & Hin). specialize (Hconv e Hin).
+    cbn [e_par e_form] in *. change (o_type s) with (m_type o) in *. change (o_ports s) with (m_ports o) in *.
+    set (p := resolve (m_type o) e) in *.
+    assert (Hu : p <> PUNDEF) by (destruct (wf_entry_facts _ Hwfe) as [X _]; exact X). clearbody p.
+    apply andb_prop in Hconv as [Hmat H2]. cbn [negb orb] in H2.
+    assert (Hrows : p <> PZIN -> m_rows o = m_ports o).
+    { intro Hnz. assert (Hpm : is_matrix p = true).
+      { destruct p; try reflexivity; congruence. }
+      rewrite Hpm in Hmat. cbn [negb orb] in Hmat. unfold wf_obj, wf_dims in Hwfo.
+      change (o_type s) with (m_type o) in Hwfo. change (o_rows s) with (m_rows o) in Hwfo. change (o_ports s) with (m_ports o) in Hwfo.
+      destruct (m_type o); try discriminate Hmat; try (apply Nat.eqb_eq; exact Hwfo);
+        apply andb_prop in Hwfo as [A B]; apply Nat.eqb_eq in A, B; congruence. }
+    split; [exact Hwfe |]. split.
+    { intro X. assert (Y : two_port_only p = true) by (destruct p; try discriminate X; reflexivity).
+      rewrite Y in H2. cbn [negb orb] in H2. apply Nat.eqb_eq. exact H2. }
+    split; [exact Hrows |].
+    intros i Hi. cbn [e_par]. unfold convert_obj. destruct (ptype_eqb p (m_type o)) eqn:Ept.
+    - assert (Hpt : p = m_type o) by (destruct p, (m_type o); try discriminate Ept; reflexivity).
+      rewrite Forall_forall in Hm. rewrite (Hm (nth i (m_data o) [])) by (apply nth_In; lia).
+      unfold ecells. cbn [e_par]. destruct (ptype_eqb p PZIN) eqn:Ez.
+      + assert (p = PZIN) by (destruct p; try discriminate Ez; reflexivity). rewrite H. unfold wf_obj, wf_dims in Hwfo.
+        change (o_type s) with (m_type o) in Hwfo. change (o_rows s) with (m_rows o) in Hwfo. rewrite <- Hpt, H in Hwfo.
+        apply Nat.eqb_eq in Hwfo. rewrite Hwfo. lia.
+      + assert (Hnz : p <> PZIN) by (intro X; rewrite X in Ez; discriminate). rewrite (Hrows Hnz). destruct p; try reflexivity; congruence.
+    - assert (Htm : is_matrix (m_type o) = true).
+      { destruct (is_matrix p) eqn:Pm; [cbn [negb orb] in Hmat; exact Hmat |].
+        (* p is Zin (not PUNDEF): a Zin entry of a non-Zin object: the object is a matrix, as it is not PUNDEF *)
+        destruct (m_type o) eqn:Et; try reflexivity; [discriminate Hty |].
+        destruct p; try discriminate Pm; try congruence; discriminate Ept. }
+      rewrite (nth_map_i_len _ _ _ _ 0 i []) by lia. rewrite Hcs by exact Htm. cbn [Nat.add].
+      assert (Hrc : m_rows o = m_ports o).
+      { unfold wf_obj, wf_dims in Hwfo. change (o_type s) with (m_type o) in Hwfo. change (o_rows s) with (m_rows o) in Hwfo.
+        change (o_ports s) with (m_ports o) in Hwfo.
+        destruct (m_type o); try discriminate Htm; try (apply Nat.eqb_eq; exact Hwfo);
+          apply andb_prop in Hwfo as [A B]; apply Nat.eqb_eq in A, B; congruence. }
+      unfold ecells. cbn [e_par]. destruct p; try congruence; try (rewrite Forall_forall in Hm; rewrite (Hm (nth i (m_data o) [])) by (apply nth_In; lia); rewrite Hrc; reflexivity).
+      unfold z0_at. unfold per_f in Hz. unfold fz0_sized in Hfz. destruct (m_fz0 o) as [zs |]; [apply (Hfz zs eq_refl i Hi) | apply Hz; reflexivity].
   Qed.
 
   (* at maximum precision in rectangular form a cell reads back as the saved value *)
